@@ -488,6 +488,7 @@ func runDrv(c *ctx) {
 				}
 				e.reqs()
 			}
+			c.intent("drv.%s.%s %x %s", kind, op, seid, toks)
 			res := guard(func() string {
 				var err error
 				switch kind + "." + op {
@@ -582,6 +583,7 @@ func runDrv(c *ctx) {
 				e.k.mu.Lock()
 				e.k.objs = map[string][]simAttr{}
 				e.k.mu.Unlock()
+				c.intent("drvmal %s.%s %x %s", kind, op, seid, hexOrDash(pay))
 				res := guard(func() string {
 					var err error
 					switch kind + "." + op {
